@@ -125,6 +125,14 @@ fourth batch (the lines the repairs of 2026-09-29 introduced; uc_neighbor_offset
 fifth batch (replace_pattern_in_structure: sample size, index map, deletion sets, pre-translations, wrap; the search helpers)
   `round(x)` (one argument, a float)      `Py.round x`: an Int, the nearest integer, a tie goes to the EVEN neighbour (python rounds the
                                           double; the model rounds the exact rational — they agree whenever the float product is exact)
+  `d.values()`, `a.isdisjoint(b)`         `Py.dictValues d` (insertion order), `Py.setDisjoint a b`
+  `x op= e` on a local name               `x = x op e` (sets / lists are values in the model; aliasing of a mutated object is not modelled)
+  `[e for a in xs for x in a]`            `List.flatten (List.map (fun a => [e for x in a]) xs)`
+  `call_mutates={"obj.m": [names]}`       in a fragment slice, a skipped expression statement `obj.m(…)` makes only the listed locals opaque
+                                          (DECLARED per entry, trusted: `Atoms.extend` builds its own normalised dict and does not mutate
+                                          the `structure_index_map` it is given — that line is translated in the fourth batch)
+  fragments also: `("ifstmt", "text then e")` the value of expression e right after the unique `if` STATEMENT whose test contains text
+                                          (both outcomes of the `if` are part of the translation; a `raise` is `none`)
   fragments also: `("callkw", (f, k))`    after `("assign", x)`: the keyword argument `k` of the unique call of `f` inside the assigned value
 
 sequencing slices (`trace=True`, used for mofun_cli)
@@ -903,6 +911,23 @@ class Fn:
         self.fail(node, "only constant non-negative indices are supported")
 
     def ex_ListComp(self, node, env, want):
+        if len(node.generators) == 2 and not any(g.ifs or g.is_async or not isinstance(g.target, ast.Name) for g in node.generators):
+            # `[e for a in xs for x in ys(a)]`: the inner lists one after the other, in the order of xs
+            g = node.generators[0]
+            src = self.ex(g.iter, env)
+            if src.ty == OPAQUE:
+                return V.opaque()
+            if not (isinstance(src.ty, tuple) and src.ty[0] == "list") or src.items is not None:
+                self.fail(node, "nested comprehension over %s" % (src.ty,))
+            e2 = dict(env)
+            nm = self.lname(g.target.id)
+            e2[g.target.id] = V(nm, src.ty[1], (), {nm})
+            inner = self.ex_ListComp(ast.copy_location(ast.ListComp(elt=node.elt, generators=node.generators[1:]), node), e2, want)
+            if inner.ty == OPAQUE:
+                return V.opaque()
+            if inner.binds or inner.items is not None:
+                self.fail(node, "nested comprehension whose inner part may raise or is a static list")
+            return V("(List.flatten (List.map (fun %s => %s) %s))" % (nm, inner.term, src.term), inner.ty, src.binds, (inner.refs - {nm}) | src.refs)
         if len(node.generators) != 1 or node.generators[0].ifs or node.generators[0].is_async or \
                 not isinstance(node.generators[0].target, ast.Name):
             self.fail(node, "comprehension shape")
@@ -1219,6 +1244,12 @@ class Fn:
                 return V.opaque()
             if obj.ty == ("table", "decdict") and f.attr == "items" and not args:
                 return V("(Py.tableItems %s)" % obj.term, LIST(TUP(STR, NUM)))
+            if isinstance(obj.ty, tuple) and obj.ty[0] == "dict" and f.attr == "values" and not args:
+                return V("(Py.dictValues %s)" % obj.term, LIST(obj.ty[2]), obj.binds, obj.refs)
+            if isinstance(obj.ty, tuple) and obj.ty[0] == "set" and f.attr == "isdisjoint" and len(args) == 1 and \
+                    isinstance(args[0].ty, tuple) and args[0].ty[0] in ("set", "list") and args[0].ty[1] == obj.ty[1]:
+                binds, refs = _join(obj, args[0])
+                return V("(Py.setDisjoint %s %s)" % (obj.term, args[0].term), BOOL, binds, refs)
             if obj.ty == STR and f.attr == "strip" and not args:
                 return V("(Py.strStripWs %s)" % obj.term, STR, obj.binds, obj.refs)
             if obj.ty == STR and f.attr == "strip" and len(args) == 1 and args[0].ty == STR:
@@ -1381,8 +1412,10 @@ class Fn:
             self.ntmp = saved
             if not ok:
                 e2 = dict(env)
+                cm = self.cfg.get("call_mutates", {})
+                only = cm.get(ast.unparse(s.value.func)) if isinstance(s, ast.Expr) and isinstance(s.value, ast.Call) else None
                 for n in ast.walk(s):
-                    if isinstance(n, ast.Name) and n.id in e2 and n.id in self.locals_assigned:
+                    if isinstance(n, ast.Name) and n.id in e2 and n.id in self.locals_assigned and (only is None or n.id in only):
                         e2[n.id] = V.opaque()
                     if isinstance(n, ast.Attribute) and isinstance(n.ctx, (ast.Store, ast.Del)) and isinstance(n.value, ast.Name):
                         # an attribute of an object is assigned: what the translation knows about that object
@@ -1562,6 +1595,11 @@ class Fn:
             e2 = dict(env)
             e2["self." + attr] = V(nm, ty, (), {nm})
             return self.with_binds(v.binds, ("let", nm, V(v.term, ty, (), v.refs), self.block(rest, e2, conts, mode)))
+        if isinstance(s, ast.AugAssign) and isinstance(s.target, ast.Name) and s.target.id in env and mode not in ("loop", "fold"):
+            # `x op= e` on a local: `x = x op e` (values are immutable in the model: no aliasing of a mutated set / list)
+            load = ast.copy_location(ast.Name(id=s.target.id, ctx=ast.Load()), s)
+            return self.stmt(ast.copy_location(ast.Assign(targets=[s.target], value=ast.copy_location(
+                ast.BinOp(left=load, op=s.op, right=s.value), s)), s), rest, env, conts, mode)
         if isinstance(s, ast.Assign):
             if len(s.targets) != 1 or not isinstance(s.targets[0], ast.Name):
                 self.fail(s, "assignment target")
@@ -2024,6 +2062,13 @@ class Fn:
                     raise Unsupported("%s: %s: %d statements contain %r" % (self.path, self.cfg["py"], len(hits), text))
                 i, x = hits[0]
                 return out + stmts[:i + 1] + [ast.copy_location(ast.Return(value=ast.Name(id=var, ctx=ast.Load())), x)]
+            elif kind == "ifstmt":               # the value of expression `e` right after the unique `if` STATEMENT whose test contains `text`
+                text, _, var = text.partition(" then ")
+                hits = [(i, x) for i, x in enumerate(stmts) if isinstance(x, ast.If) and text in ast.unparse(x.test)]
+                if len(hits) != 1:
+                    raise Unsupported("%s: %s: %d `if` statements mention %r" % (self.path, self.cfg["py"], len(hits), text))
+                i, x = hits[0]
+                return out + stmts[:i + 1] + [ast.copy_location(ast.Return(value=ast.parse(var, mode="eval").body), x)]
             else:
                 raise AssertionError(kind)
         raise Unsupported("%s: %s: the fragment path selects no expression" % (self.path, self.cfg["py"]))
@@ -2119,7 +2164,7 @@ class Fn:
                 params = [(n, (ty if n == self.lname(name) else t)) for n, t in params]
             if cfg.get("inputs") is not None:
                 # the fragment is translated for GIVEN values of these locals: the statements before it are not read
-                body_stmts = body_stmts[-(cfg.get("keep_last", 0) + (2 if cfg["fragment"][-1][0] == "stmt" else 1)):]
+                body_stmts = body_stmts[-(cfg.get("keep_last", 0) + (2 if cfg["fragment"][-1][0] in ("stmt", "ifstmt") else 1)):]
                 for name, ty in cfg["inputs"].items():
                     env[name] = static_param(self.lname(name), ty)
                     params.append((self.lname(name), ty))
@@ -2569,11 +2614,17 @@ def round (x : Rat) : Int :=
   let r := x - (fl : Rat)
   if r < 1 / 2 then fl else if 1 / 2 < r then fl + 1 else if fl % 2 = 0 then fl else fl + 1
 
+/-- `d.values()` of an insertion-ordered dict, in insertion order -/
+def dictValues {κ β} (d : List (κ × β)) : List β := d.map (fun p => p.2)
+/-- `a.isdisjoint(b)` on sets -/
+def setDisjoint {α} [DecidableEq α] (a b : List α) : Bool := a.all (fun x => !b.contains x)
+
 '''
 assert PRELUDE.count("end Mofun.Generated.Py\n") == 1
 PRELUDE = PRELUDE.replace("end Mofun.Generated.Py\n", PRELUDE5 + "end Mofun.Generated.Py\n")
 
 _REPL = dict(file="mofun/mofun.py", py="replace_pattern_in_structure", slice=True, decorators=["suppress_warnings"])
+_REPL_LOOP = [("if", "len(replace_pattern)"), "orelse", ("for", "enumerate(match_positions)")]     # the body of the loop over the matches
 
 FUNCTIONS += [
     # ---- fifth batch: replace_pattern_in_structure and the search helpers
@@ -2584,6 +2635,25 @@ FUNCTIONS += [
          fragment=[("if", "replace_fraction"), "body", ("assign", "replace_indices"), ("callkw", ("sample", "k"))],
          params=[("replace_fraction", NUM)], inputs={}, abstractions={"len(match_positions)": ("num_matches", NAT)}, ret=INT,
          doc=" (FRAGMENT: the number of matches `random.sample` is asked for, `round(replace_fraction * len(match_positions))`)"),
+    dict(_REPL, lean="replaceIndexMap", partial=True,
+         fragment=_REPL_LOOP + [("ifstmt", "replace_all then structure_index_map")], keep_last=1, params=[("replace_all", BOOL)],
+         inputs={"match_indices": LIST(LIST(NAT)), "m_i": NAT, "replace2search_pattern_map": DICT(NAT, NAT)},
+         locals={"structure_index_map": DICT(NAT, NAT)}, call_mutates={"new_structure.extend": ["new_structure"]}, ret=DICT(NAT, NAT),
+         doc=" (FRAGMENT: the structure_index_map of one match — `{}`, then for `not replace_all` the dict comprehension "
+             "`{k: match_indices[m_i][v] for k, v in replace2search_pattern_map.items()}`; `none` = IndexError)"),
+    dict(_REPL, lean="replaceDeleteLinker", partial=True, fragment=_REPL_LOOP + [("assign", "to_delete_linker")], params=[],
+         inputs={"match_indices": LIST(LIST(NAT)), "m_i": NAT, "structure_index_map": DICT(NAT, NAT)}, ret=SET(NAT),
+         doc=" (FRAGMENT: the atoms one match wants deleted, `set(match_indices[m_i]) - set(structure_index_map.values())`; `none` = IndexError)"),
+    dict(_REPL, lean="replaceMergeDelete", partial=True, fragment=_REPL_LOOP + [("ifstmt", "isdisjoint then to_delete")],
+         params=[("ignore_atoms_should_not_be_deleted_twice", BOOL)], inputs={"to_delete": SET(NAT), "to_delete_linker": SET(NAT)}, ret=SET(NAT),
+         doc=" (FRAGMENT: the deletion set after one match — the `if to_delete.isdisjoint(…) or ignore…:` statement with both outcomes; "
+             "`none` = `raise AtomsShouldNotBeDeletedTwice()`)"),
+    dict(_REPL, lean="replaceEmptyBranch", fragment=[("if", "len(replace_pattern)"), "test"], params=[], inputs={},
+         objattrs={"replace_pattern": {"__len__": NAT}}, ret=BOOL,
+         doc=" (FRAGMENT: is the replacement empty, i.e. is this a pure deletion)"),
+    dict(_REPL, lean="replaceEmptyDelete", fragment=[("if", "len(replace_pattern)"), "body", ("stmt", "to_delete then to_delete")], params=[],
+         inputs={"to_delete": SET(NAT), "match_indices": LIST(LIST(NAT))}, ret=SET(NAT),
+         doc=" (FRAGMENT: the deletion set of the empty-replacement branch, `to_delete |= set([idx for match in match_indices for idx in match])`)"),
 ]
 
 
